@@ -406,6 +406,8 @@ var c04AfterPreload func(v *vShard)
 var c04KeepDir bool
 
 func c04Body(sc c04Scenario, baseDir string, x *sched.Exec) (kind, detail string, fatal bool) {
+	// no state may flow from one execution into the next: forget the files the collector still has queued
+	defer immutable.VerifDrainTableGC()
 	if sched.Trace {
 		fmt.Printf("SCHED-TRACE ==== execution %d\n", c04ExecSeq+1)
 	}
